@@ -182,34 +182,47 @@ class SymInt:
 
     # comparisons ---------------------------------------------------------------------------
     def __eq__(self, o):
+        if type(o) is float:
+            return SymBool(self.t == int(o)) if o == o and o not in (float("inf"), float("-inf")) and o.is_integer() else False
         ot = _it(o)
         if ot is None:
             return False
         return SymBool(self.t == ot)
 
     def __ne__(self, o):
+        if type(o) is float:
+            return SymBool(self.t != int(o)) if o == o and o not in (float("inf"), float("-inf")) and o.is_integer() else True
         ot = _it(o)
         if ot is None:
             return True
         return SymBool(self.t != ot)
 
-    def _cmp(self, o, f):
+    def _cmp(self, o, f, float_bound=None):
+        if type(o) is float and float_bound is not None:
+            # an integer compared with a concrete float: x < c <=> x < ceil(c), x <= c <=> x <= floor(c), ...
+            import math
+
+            if o != o:
+                return False
+            if o in (float("inf"), float("-inf")):
+                return f(0, o)
+            return SymBool(f(self.t, float_bound(math, o)))
         ot = _it(o)
         if ot is None:
             return NotImplemented
         return SymBool(f(self.t, ot))
 
     def __lt__(self, o):
-        return self._cmp(o, lambda a, b: a < b)
+        return self._cmp(o, lambda a, b: a < b, lambda m, c: m.ceil(c))
 
     def __le__(self, o):
-        return self._cmp(o, lambda a, b: a <= b)
+        return self._cmp(o, lambda a, b: a <= b, lambda m, c: m.floor(c))
 
     def __gt__(self, o):
-        return self._cmp(o, lambda a, b: a > b)
+        return self._cmp(o, lambda a, b: a > b, lambda m, c: m.floor(c))
 
     def __ge__(self, o):
-        return self._cmp(o, lambda a, b: a >= b)
+        return self._cmp(o, lambda a, b: a >= b, lambda m, c: m.ceil(c))
 
     # arithmetic ----------------------------------------------------------------------------
     def _ar(self, o, f):
